@@ -106,12 +106,15 @@ AllCalls ==
    \/ Fam("ends_with", {"none"}, {0}, {0}, WholeSk \cup {"ch"})
    \/ Fam("contains", {"none"}, {0}, {0}, WholeSk \cup {"ch"})
    \/ Fam("rel", {"eq", "ne"}, {0}, {0}, {"fs", "fs2"})
-   \/ Fam("obs", {"str", "c_str", "data", "length", "empty", "ostream"}, {0}, {0}, {"none"})
+   \/ Fam("obs", {"str", "c_str", "data", "data_mut", "length", "empty", "ostream"}, {0}, {0}, {"none"})
    \/ Fam("get", {"at"}, Pos1 \cup {L + 2}, {0}, {"mut", "const"})
    \/ Fam("get", {"idx"}, IdxLegal, {0}, {"mut", "const"})
    \/ Fam("get", {"front", "back"}, {0}, {0}, {"mut", "const"})
    \/ Fam("iter", {"fwd", "fwd_post", "rev", "rev_post", "dist", "rdist"}, {0}, {0}, {"mut", "const", "c"})
-   \/ Fam("iter", {"deref", "rderef", "back_from"}, IdxLegal \ {Len(s)}, {0}, {"mut", "const", "c"})
+   \/ Fam("iter", {"deref", "rderef", "back_from", "rback_from"}, IdxLegal \ {Len(s)}, {0}, {"mut", "const", "c"})
+   \/ \E p \in 0..(Len(s) - 1) : \E c \in p..(Len(s) - 1) : Do(A("iter", "minus_eq", "mut", p, c, <<>>, 0, 0, 0))
+   \/ \E p \in 0..(Len(s) - 1) : \E c \in 0..(Len(s) - 1 - p) : Do(A("iter", "rindex", "mut", p, c, <<>>, 0, 0, 0))
+   \/ \E p \in 0..Len(s), c \in 0..Len(s) : Do(A("iter", "cmp", "const", p, c, <<>>, 0, 0, 0))
    \/ \E tk \in {"diff"}, p \in 0..(Len(s) - 1), c \in 0..(Len(s) - 1) : Do(A("iter", tk, "const", p, c, <<>>, 0, 0, 0))
    \* iterator[] beyond the terminating zero is undefined behaviour by the documentation of operator[]: not generated
    \/ \E p \in 0..(Len(s) - 1) : \E c \in 0..(Len(s) - 1 - p) : Do(A("iter", "index", "mut", p, c, <<>>, 0, 0, 0))
